@@ -2,9 +2,9 @@ import Nstd.Variant.Val
 /-
   The instance of `DblSem` used by the compiled driver: IEEE-754 binary64 on the 64-bit
   pattern, in exact integer arithmetic (round-to-nearest-even for `(double)n`, `atof` and
-  `printf("%f")`).  Nothing is proved about this file: the theorems of the area hold for
-  every `DblSem`; this instance is validated against the real code and against Python's
-  floats by the correspondence run only.
+  `printf("%f")`).  The general theorems of the area hold for every `DblSem`; about this instance
+  `LemmasIeee.lean` proves that `dOfInt` is the correctly rounded integer conversion; `atof` and `%f`
+  are validated against the real code and against Python's floats by the correspondence run only.
 
   `ofStr` covers what `strtod` accepts: decimal with exponent, hexadecimal floats, inf, nan.
 -/
@@ -46,21 +46,30 @@ def roundHalfEven (p q : Nat) : Nat :=
   let r := p % q
   if 2 * r > q then n + 1 else if 2 * r == q then (if n % 2 == 1 then n + 1 else n) else n
 
+/-- `p / q` with the power of two `2^k` moved into numerator or denominator: the pair stands for `p / (q · 2^k)` -/
+def scaledBy (p q : Nat) (k : Int) : Nat × Nat :=
+  if k ≥ 0 then (p, q * 2 ^ k.toNat) else (p * 2 ^ (-k).toNat, q)
+
+/-- the exponent `k` with `2^52 ≤ p / (q · 2^k) < 2^53` (estimate from the bit lengths, then adjust), not below the
+    subnormal exponent -1074 -/
+def normK (p q : Nat) : Int :=
+  let k0 : Int := (Nat.log2 p : Int) - (Nat.log2 q : Int) - 52
+  let k1 : Int := if (scaledBy p q k0).1 / (scaledBy p q k0).2 < 2 ^ 52 then k0 - 1 else k0
+  let k2 : Int := if (scaledBy p q k1).1 / (scaledBy p q k1).2 ≥ 2 ^ 53 then k1 + 1 else k1
+  if k2 < -1074 then -1074 else k2
+
+/-- significand `m` (already rounded, `≤ 2^53`) at exponent `k` as bits: carry into the next binade, overflow to
+    infinity, subnormals -/
+def dPack (m : Nat) (k : Int) : Nat :=
+  let mk : Nat × Int := if m == 2 ^ 53 then (2 ^ 52, k + 1) else (m, k)
+  if mk.2 + 52 > 1023 then 2047 * 2 ^ 52
+  else if mk.1 < 2 ^ 52 then mk.1
+  else (mk.2 + 1075).toNat * 2 ^ 52 + (mk.1 - 2 ^ 52)
+
 /-- the double nearest to `p / q` (p, q > 0), as bits without sign -/
 def dOfRat (p q : Nat) : Nat :=
   if p == 0 then 0
-  else
-    -- k with 2^52 ≤ p / (q * 2^k) < 2^53, as an Int; estimate from the bit lengths, then adjust
-    let k0 : Int := (Nat.log2 p : Int) - (Nat.log2 q : Int) - 52
-    let scaled (k : Int) : Nat × Nat := if k ≥ 0 then (p, q * 2 ^ k.toNat) else (p * 2 ^ (-k).toNat, q)
-    let k1 : Int := if (scaled k0).1 / (scaled k0).2 < 2 ^ 52 then k0 - 1 else k0
-    let k2 : Int := if (scaled k1).1 / (scaled k1).2 ≥ 2 ^ 53 then k1 + 1 else k1
-    let k : Int := if k2 < -1074 then -1074 else k2
-    let m := roundHalfEven (scaled k).1 (scaled k).2
-    let (m, k) := if m == 2 ^ 53 then (2 ^ 52, k + 1) else (m, k)
-    if k + 52 > 1023 then 2047 * 2 ^ 52
-    else if m < 2 ^ 52 then m
-    else (k + 1075).toNat * 2 ^ 52 + (m - 2 ^ 52)
+  else dPack (roundHalfEven (scaledBy p q (normK p q)).1 (scaledBy p q (normK p q)).2) (normK p q)
 
 def dOfInt (n : Int) : Nat :=
   if n < 0 then 2 ^ 63 + dOfRat n.natAbs 1 else dOfRat n.natAbs 1
